@@ -864,20 +864,38 @@ impl StagingStore for FsOcflStore {
         let inventory_path = paths::inventory_path(&object_root);
         let sidecar_path = paths::sidecar_path(&object_root, inventory.digest_algorithm);
 
-        let mut inv_writer = inventory
-            .digest_algorithm
-            .writer(File::create(&inventory_path)?);
+        // The files are written under temporary names and then moved into place so that a failed
+        // write cannot leave a truncated inventory behind
+        let inventory_tmp = object_root.join(format!("{}.tmp", INVENTORY_FILE));
+        let sidecar_tmp = object_root.join("inventory-sidecar.tmp");
 
-        if pretty_print {
-            serde_json::to_writer_pretty(&mut inv_writer, &inventory)?;
-        } else {
-            serde_json::to_writer(&mut inv_writer, &inventory)?;
+        let write_result = (|| -> Result<()> {
+            let mut inv_writer = inventory
+                .digest_algorithm
+                .writer(File::create(&inventory_tmp)?);
+
+            if pretty_print {
+                serde_json::to_writer_pretty(&mut inv_writer, &inventory)?;
+            } else {
+                serde_json::to_writer(&mut inv_writer, &inventory)?;
+            }
+
+            let digest = inv_writer.finalize_hex();
+
+            let mut sidecar_file = File::create(&sidecar_tmp)?;
+            writeln!(&mut sidecar_file, "{}  {}", digest, INVENTORY_FILE)?;
+            drop(sidecar_file);
+
+            fs::rename(&inventory_tmp, &inventory_path)?;
+            fs::rename(&sidecar_tmp, &sidecar_path)?;
+            Ok(())
+        })();
+
+        if write_result.is_err() {
+            let _ = fs::remove_file(&inventory_tmp);
+            let _ = fs::remove_file(&sidecar_tmp);
         }
-
-        let digest = inv_writer.finalize_hex();
-
-        let mut sidecar_file = File::create(&sidecar_path)?;
-        writeln!(&mut sidecar_file, "{}  {}", digest, INVENTORY_FILE)?;
+        write_result?;
 
         if finalize {
             let version_path = paths::version_path(&object_root, inventory.head);
